@@ -768,6 +768,412 @@ def frames_impl(case):
 TREE_PATCHED = {}
 
 
+# ------------------------------------------------------------------------------------------
+# datagram tie: ConnDgram.receive_datagram (raw bytes -> header parser -> decisions -> decryption oracle -> frame loop,
+# coalesced packets) against the real receive_datagram()
+STATE_NUM = {"FIRSTFLIGHT": 0, "CONNECTED": 1, "CLOSING": 2, "DRAINING": 3, "TERMINATED": 4}
+TRIGGER_NUM = {"header_parse_error": 10, "initial_packet_datagram_too_small": 21, "unknown_connection_id": 22,
+               "unsupported_version": 24, "key_unavailable": 41, "payload_decrypt_error": 42}
+
+
+def _tls_tokens_for(conn):
+    """cfg + ctx tokens of self.tls; before _initialize() (fresh server): those of the Context _initialize() will build"""
+    from aioquic import tls
+    if getattr(conn, "tls", None) is not None:
+        return c05_tlsmsg.snapshot(conn.tls)
+    c = conn._configuration
+    ctx = tls.Context(alpn_protocols=c.alpn_protocols, cadata=c.cadata, cafile=c.cafile, capath=c.capath,
+                      cipher_suites=conn.configuration.cipher_suites, is_client=conn._is_client,
+                      max_early_data=None if conn._is_client else 0xFFFFFFFF, server_name=c.server_name, verify_mode=c.verify_mode)
+    ctx.certificate, ctx.certificate_chain, ctx.certificate_private_key = c.certificate, c.certificate_chain, c.private_key
+    ctx.alpn_cb = conn._alpn_handler
+    if conn._session_ticket_fetcher is not None:
+        ctx.get_session_ticket_cb = conn._session_ticket_fetcher
+    if conn._session_ticket_handler is not None:
+        ctx.new_session_ticket_cb = conn._handle_session_ticket
+    return c05_tlsmsg.snapshot(ctx)
+
+
+def dgram_snapshot(conn):
+    from aioquic import tls
+    init = getattr(conn, "tls", None) is not None
+    hseq = -1
+    for c in conn._host_cids:
+        if c.cid == conn.host_cid:
+            hseq = c.sequence_number
+    t = [STATE_NUM[conn._state.name], int(conn._close_pending), int(init), conn._configuration.connection_id_length,
+         conn._version or 0, int(conn._version_negotiated_incompatible), conn._retry_count, hseq]
+    vs = list(conn._configuration.supported_versions)
+    t += [len(vs)] + vs
+    if init:
+        full = snapshot_tokens(conn, 0, b"")
+    else:
+        # no streams / CRYPTO receivers / tls yet: the scalar part, empty lists, three empty receivers
+        mdf = conn._configuration.max_datagram_frame_size
+        full = [int(conn._is_client), conn._local_max_data.used, conn._local_max_data.value,
+                conn._local_max_streams_bidi.value, conn._local_max_streams_uni.value,
+                conn._local_max_stream_data_bidi_remote, conn._local_max_stream_data_uni,
+                -1 if mdf is None else mdf, conn._host_cid_seq, -1, conn._remote_active_connection_id_limit,
+                0, conn._peer_retire_prior_to, len(conn._retire_connection_ids), conn._local_active_connection_id_limit]
+        full += [len(conn._host_cids)] + [c.sequence_number for c in conn._host_cids] + [0, 0, 0, 0, 0] + [0]
+        full += [0, 0, 0, 0] * 3
+        full += _tls_tokens_for(conn)
+    return t + full
+
+
+def build_dgram(lab, parts):
+    out = b""
+    for part in parts:
+        k = part[0]
+        if k == "raw":
+            out += bytes.fromhex(part[1])
+        elif k == "pkt":
+            o = dict(part[3]) if len(part) > 3 else {}
+            kw = {}
+            if o.get("reserved"):
+                kw["reserved_bits"] = o["reserved"]
+            if "dcid_index" in o:
+                cids = [c.cid for c in lab.subject.conn._host_cids]
+                kw["dcid"] = cids[o["dcid_index"] % len(cids)]
+            if "dcid" in o:
+                kw["dcid"] = bytes.fromhex(o["dcid"])
+            payload = bytes.fromhex(part[2])
+            if len(payload) < 4:
+                kw["pn_len"] = 4
+            try:
+                pkt = lab.puppet.build_packet(part[1], payload, **kw)
+            except ValueError:
+                pkt = b""
+            if o.get("corrupt") and pkt:
+                pkt = pkt[:-1] + bytes([pkt[-1] ^ 0x55])
+            if o.get("cut") and pkt:
+                pkt = pkt[:max(1, len(pkt) - o["cut"])]
+            out += pkt
+        elif k == "long":
+            o = dict(part[2]) if len(part) > 2 else {}
+            pk = lab.ch_pkt
+            if lab.side == "server":
+                dcid, scid, keycid, is_client = pk.dcid, pk.scid, pk.dcid, True
+            else:
+                dcid, scid, keycid, is_client = pk.scid, bytes(range(0x50, 0x58)), pk.dcid, False
+            if "dcid" in o:
+                dcid = bytes.fromhex(o["dcid"])
+            pkt = build_long(o.get("ptype", 0), dcid, scid, bytes.fromhex(part[1]), keycid=keycid, is_client=is_client,
+                             pn=o.get("pn", 0 if lab.side == "server" else 1), version=o.get("version", V1),
+                             reserved=o.get("reserved", 0), pn_len=o.get("pn_len", 2), length_override=o.get("length"))
+            if o.get("corrupt"):
+                pkt = pkt[:-1] + bytes([pkt[-1] ^ 0x55])
+            out += pkt
+        elif k == "pad":
+            if len(out) < part[1]:
+                out += bytes(part[1] - len(out))
+        elif k == "vn":
+            pk = lab.ch_pkt
+            out += bytes([0x80 | part[2]]) + bytes(4) + bytes([len(pk.scid)]) + pk.scid + bytes([len(pk.dcid)]) + pk.dcid + \
+                b"".join(v.to_bytes(4, "big") for v in part[1])
+    return out
+
+
+def dgram_observe(case):
+    """-> (tokens, expected)"""
+    k = _key(case)
+    if k in _CACHE:
+        return _CACHE[k]
+    from aioquic import tls
+    from aioquic.buffer import Buffer
+    from aioquic.quic import crypto as qc
+    from aioquic.quic.packet import get_retry_integrity_tag, pull_quic_header
+    lab = Lab(case["spec"])
+    for op in case["ops"]:
+        lab.apply(op)
+    subj = lab.subject
+    conn = subj.conn
+    if case.get("retry") is not None:
+        # a Retry datagram is built by the Lab (it needs the client's genuine Initial): capture instead of delivering
+        r = case["retry"]
+        saved = subj.receive_datagram
+        box = []
+        subj.receive_datagram = lambda d, a: box.append(d)
+        try:
+            lab.send_retry(r[0], dict(r[1], nopump=True))
+        finally:
+            del subj.receive_datagram
+        data = box[0] + bytes.fromhex(case.get("trailer", ""))
+    else:
+        data = build_dgram(lab, case["parts"])
+    patched = int(TREE_PATCHED.get("firstflight", 1))
+    snap = dgram_snapshot(conn)
+    had_event = conn._close_event is not None      # the model's snapshot carries no earlier close event: gate only
+    # walk over the headers as the loop will (offsets only): which host CID each packet addresses; verdict on a Retry
+    hdrs = []
+    buf = Buffer(data=data)
+    host = {c.cid: c.sequence_number for c in conn._host_cids}
+    while not buf.eof() and len(hdrs) < 40:
+        start = buf.tell()
+        try:
+            h = pull_quic_header(buf, host_cid_length=conn._configuration.connection_id_length)
+        except ValueError:
+            break
+        rok = 0
+        if h.packet_type.name == "RETRY":
+            try:
+                tag = get_retry_integrity_tag(buf.data_slice(start, buf.tell() - 16), conn._peer_cid.cid, version=h.version)
+                rok = int(h.destination_cid == conn.host_cid and h.integrity_tag == tag)
+            except Exception:
+                rok = 0
+        hdrs.append([host.get(h.destination_cid, -1), rok, h.packet_type.name])
+        if start + h.packet_length > len(data) or h.packet_length <= 0:
+            break
+        buf.seek(start + h.packet_length)
+    dec, marks = [], []
+    rec = c05_tlsmsg.ClassRecorder(tls, conn)
+    real_dec = qc.CryptoPair.decrypt_packet
+
+    def decrypt(self, packet, encrypted_offset, expected_packet_number):
+        i = len(dec)
+        dec.append(None)
+        marks.append(len(rec.calls))
+        try:
+            r = real_dec(self, packet, encrypted_offset, expected_packet_number)
+        except qc.KeyUnavailableError:
+            dec[i] = (1, 0, b"")
+            raise
+        except qc.CryptoError:
+            dec[i] = (2, 0, b"")
+            raise
+        ph, payload, pn = r
+        mask = 0x0C if (ph[0] & 0x80) else 0x18
+        dec[i] = (0, int(bool(ph[0] & mask)), bytes(payload))
+        return r
+
+    ne0 = len(subj.qlog_events())
+    nr0 = len(subj.raised)
+    rec.install()
+    qc.CryptoPair.decrypt_packet = decrypt
+    try:
+        subj.receive_datagram(data, lab.peer_addr())
+    finally:
+        qc.CryptoPair.decrypt_packet = real_dec
+        rec.uninstall()
+    marks.append(len(rec.calls))
+    recv = [c for c in subj.raised[nr0:] if c.name == "receive_datagram"]
+    # expected
+    trace = []
+    for e in subj.qlog_events()[ne0:]:
+        if e["name"] == "transport:packet_dropped":
+            trig = e["data"]["trigger"]
+            if trig == "unexpected_packet":
+                idx = len(trace)
+                ptn = hdrs[idx][2] if idx < len(hdrs) else ""
+                trace.append(30 if ptn in ("RETRY", "VERSION_NEGOTIATION") else 26)
+            else:
+                trace.append(TRIGGER_NUM.get(trig, 99))
+        elif e["name"] == "transport:packet_received":
+            if e["data"]["header"].get("packet_type") in ("retry", "version_negotiation"):
+                trace.append(30)
+            else:
+                trace.append(100 + len(e["data"].get("frames", [])))
+    conn = subj.conn
+    if recv:
+        exp = [3, EXN.get(recv[0].exc_type, 9), 0, 0, 0, 0, 0]
+    else:
+        ev = conn._close_event
+        if ev is None or had_event:
+            cl = [0, 0, 0]
+        else:
+            by_peer = conn._state.name == "DRAINING"
+            cl = [2 if by_peer else 1, int(ev.error_code), -1 if ev.frame_type is None else int(ev.frame_type)]
+        exp = [0, 0, STATE_NUM[conn._state.name], int(conn._close_pending)] + cl
+    # a VN packet that is ignored because it lists our version is silent in qlog (only a log warning): the model says 30
+    if not recv and any(h[2] == "VERSION_NEGOTIATION" for h in hdrs) and not trace:
+        trace = [30]
+    exp += [len(trace)] + trace
+    orcs = [len(hdrs)]
+    for i, (seq, rok, _) in enumerate(hdrs):
+        d = dec[i] if i < len(dec) and dec[i] is not None else (2, 0, b"")
+        calls = rec.calls[marks[i]:marks[i + 1]] if i + 1 < len(marks) else []
+        orcs += [seq, rok, d[0], d[1], len(d[2])] + list(d[2]) + [len(calls)]
+        for records in calls:
+            orcs += c05_tlsmsg.orc_tokens(records)
+    tokens = [patched] + snap + orcs + [len(data)] + list(data)
+    later_probs = None
+    res = (tokens, exp, lab)
+    if len(_CACHE) > 1500:
+        _CACHE.clear()
+    _CACHE[k] = res
+    return res
+
+
+def oracle_dgram(case):
+    tokens, exp, lab = dgram_observe(case)
+    lab.pair.pump(lab.subject)
+    lab.settle(max_time=20.0)
+    probs = judge(lab)
+    return probs[0] if probs else None
+
+
+def gen_dgram_cases(rng, n):
+    g = Gen(rng)
+    cases = []
+
+    def frames(epoch):
+        if epoch in ("initial", "handshake"):
+            pool = [0x00, 0x01, 0x02, 0x06, 0x1c, 0x08, 0x1e]
+        else:
+            pool = FRAME_TYPES
+        return b"".join(g.frame(rng.choice(pool)) for _ in range(rng.randint(1, 3))).hex()
+
+    def garbage():
+        n_ = rng.choice([1, 2, 5, 20, 21, 40, 60])
+        d = bytes(rng.randrange(256) for _ in range(n_))
+        if rng.random() < 0.6:
+            d = bytes([rng.choice([0x40, 0x43, 0xC0, 0xC3, 0xD0, 0xE0, 0xF0, 0x80, 0x00, 0x3f])]) + d[1:]
+        return d.hex()
+
+    combos = [("client", "connected"), ("server", "connected"), ("client", "handshake"), ("server", "handshake"),
+              ("client", "keyupdated"), ("server", "keyupdated")]
+    for i in range(n):
+        x = rng.random()
+        if x < 0.62:
+            side, state = rng.choice(combos)
+            epochs = ["1rtt"] if state != "handshake" else ["initial", "handshake"]
+            parts = []
+            for _ in range(rng.randint(1, 4)):
+                y = rng.random()
+                ep = rng.choice(epochs + (["initial", "handshake"] if y < 0.25 else []))
+                o = {}
+                z = rng.random()
+                if z < 0.12:
+                    o["corrupt"] = 1
+                elif z < 0.18:
+                    o["reserved"] = rng.choice([1, 2, 3])
+                elif z < 0.26:
+                    o["dcid"] = bytes(rng.randrange(256) for _ in range(8)).hex()
+                elif z < 0.34 and side == "server":
+                    o["dcid_index"] = rng.randrange(8)
+                elif z < 0.38:
+                    o["cut"] = rng.choice([1, 5, 17])
+                parts.append(["pkt", ep, frames(ep), o])
+                if ep == "1rtt":
+                    break       # a short header packet extends to the end of the datagram
+            if rng.random() < 0.25:
+                parts.insert(rng.randrange(len(parts) + 1), ["raw", garbage()])
+            if rng.random() < 0.2:
+                parts.append(["raw", bytes(rng.choice([1, 30])).hex()])
+            ops = []
+            if rng.random() < 0.1 and state != "handshake":
+                ops.append(["pkt", "1rtt", g.frame(rng.choice([0x18, 0x08, 0x0A])).hex()])
+            cases.append({"spec": spec(side, state, 100 + rng.randrange(6)), "ops": ops, "parts": parts})
+        elif x < 0.8:
+            # server first flight: Initial packets under the public Initial keys, coalesced / padded / too small / other types
+            parts = []
+            for _ in range(rng.randint(1, 3)):
+                o = {"ptype": rng.choice([0, 0, 0, 1, 2]), "version": rng.choice([V1, V1, V2, 0x1A2A3A4A])}
+                if rng.random() < 0.15:
+                    o["corrupt"] = 1
+                if rng.random() < 0.1:
+                    o["reserved"] = 1
+                if rng.random() < 0.15:
+                    o["dcid"] = bytes(rng.randrange(256) for _ in range(rng.choice([8, 8, 20]))).hex()
+                pl = rng.choice(["01", "00", "", "1f", frames("initial"), (b"\x06" + varint(0) + varint(4) + b"\x01\x00\x00\x00").hex()])
+                parts.append(["long", pl, o])
+            if rng.random() < 0.2:
+                parts.insert(rng.randrange(len(parts) + 1), ["raw", garbage()])
+            if rng.random() < 0.8:
+                parts.append(["pad", rng.choice([1199, 1200, 1200, 1300])])
+            cases.append({"spec": spec("server", "firstflight", 200 + rng.randrange(4)), "ops": [], "parts": parts})
+        elif x < 0.9:
+            # client first flight: server Initial packets, Version Negotiation
+            if rng.random() < 0.5:
+                vs = rng.choice([[V1], [V2], [0x1A2A3A4A], [], [V2, V1], [0xAABBCCDD, V2]])
+                parts = [["vn", vs, rng.randrange(128)]]
+                if rng.random() < 0.3:
+                    parts.append(["raw", garbage()])
+            else:
+                parts = [["long", rng.choice(["01", "1f", frames("initial")]), {"version": rng.choice([V1, V1, V2])}]
+                         for _ in range(rng.randint(1, 2))]
+            cases.append({"spec": spec("client", "firstflight", 200 + rng.randrange(4)), "ops": [], "parts": parts})
+        else:
+            ro = {}
+            y = rng.random()
+            if y < 0.2:
+                ro["bad_tag"] = 1
+            elif y < 0.35:
+                ro["wrong_dcid"] = 1
+            elif y < 0.45:
+                ro["version"] = V2
+            cases.append({"spec": spec("client", "firstflight", 200 + rng.randrange(4)), "ops": [], "parts": [],
+                          "retry": [rng.choice([0, 1, 15, 16, 17, 100, 1131, 1300]), ro],
+                          "trailer": rng.choice(["", "", "00", garbage()])})
+    return cases
+
+
+# ------------------------------------------------------------------------------------------
+# close-branch tie: ConnClose.close_send (sizes, on C13's builder model) against the real datagrams_to_send()
+def close_observe(case):
+    """case: {"side", "state": firstflight | connected, "token": n, "mds": n, "code", "ft": int | None, "reason": n, "ascii": bool}
+    -> (tokens, expected [outcome, ndatagrams, lengths...])"""
+    k = _key(case)
+    if k in _CACHE:
+        return _CACHE[k]
+    from aioquic.quic.configuration import QuicConfiguration
+    from aioquic.quic.connection import QuicConnection
+    from aioquic import tls
+    if case["state"] == "firstflight":
+        cfg = QuicConfiguration(is_client=True, alpn_protocols=["h3"], max_datagram_size=case["mds"])
+        conn = QuicConnection(configuration=cfg)
+        conn.connect(("10.0.0.1", 4433), now=0.0)
+        conn.datagrams_to_send(now=0.0)
+        conn._peer_token = bytes(case["token"])      # what _receive_retry_packet stores (header.token)
+    else:
+        lab = Lab(spec(case["side"], "connected", 100 + case.get("seed", 0)))
+        conn = lab.subject.conn
+    reason = ("r" if case.get("ascii", True) else "\u00e9") * case["reason"]
+    conn.close(error_code=case["code"], frame_type=case["ft"], reason_phrase=reason)
+    keys = [int(conn._handshake_confirmed)] + [int(conn._cryptos[e].send.is_valid())
+                                               for e in (tls.Epoch.INITIAL, tls.Epoch.HANDSHAKE, tls.Epoch.ONE_RTT)]
+    tokens = [int(TREE_PATCHED.get("retry_close", 1)), int(conn._is_client), conn._max_datagram_size, len(conn._peer_cid.cid),
+              len(conn.host_cid), len(conn._peer_token)] + keys + [case["code"]] + \
+             ([0] if case["ft"] is None else [1, case["ft"]]) + [len(reason.encode("utf8")), case.get("slack", 0)]
+    try:
+        out = conn.datagrams_to_send(now=1.0)
+        exp = [0, len(out)] + [len(d) for d, _ in out]
+    except Exception as e:  # noqa: BLE001 -- the observable is the exception class
+        exp = [{"QuicPacketBuilderStop": 1, "BufferWriteError": 2, "AssertionError": 3, "AttributeError": 4,
+                "ValueError": 5, "CryptoError": 6}.get(type(e).__name__, 9), 0]
+    res = (tokens, exp)
+    _CACHE[k] = res
+    return res
+
+
+def oracle_close(case):
+    _, exp = close_observe(case)
+    if exp[0] != 0:
+        name = {1: "QuicPacketBuilderStop", 2: "BufferWriteError", 3: "AssertionError", 4: "AttributeError", 5: "ValueError",
+                6: "CryptoError"}.get(exp[0], "?")
+        return ("%s escaped datagrams_to_send() (close branch) [token %s, reason %s]" % (name, case.get("token"), case["reason"]),
+                {"exception": name, "site": "start_packet"})
+    return None
+
+
+def gen_close_cases(rng, n):
+    cases = []
+    toks = [0, 1, 16, 63, 64, 500, 1100, 1129, 1130, 1131, 1139, 1140, 1155, 1156, 1157, 1200, 1300, 1452, 3000]
+    for i in range(n):
+        x = rng.random()
+        ft = rng.choice([None, None, 0, 6, 0x1f, 0x30, 16383, 16384, (1 << 30), (1 << 62) - 1])
+        code = rng.choice([0, 1, 7, 10, 63, 64, 0x100, 0x128, 16383, 16384, (1 << 30) - 1, 1 << 30, (1 << 62) - 1])
+        reason = rng.choice([0, 1, 18, 100, 1000, 1100, 1128, 1129, 1130, 1150, 1200, 2000])
+        if x < 0.7:
+            mds = rng.choice([1200, 1200, 1280, 1350, 1452, 1500])
+            cases.append({"side": "client", "state": "firstflight", "token": rng.choice(toks + [mds - 45, mds - 70, mds - 29, mds - 30]),
+                          "mds": mds, "code": code, "ft": ft, "reason": reason, "ascii": reason >= 1000 or rng.random() < 0.8})
+        else:
+            cases.append({"side": rng.choice(["client", "server"]), "state": "connected", "seed": rng.randrange(4), "code": code,
+                          "ft": ft, "reason": reason, "ascii": reason >= 1000 or rng.random() < 0.8})
+    return cases
+
+
 def detect_patches():
     """Which of the documented fixes does the tree under test carry?  Decided by running the minimal
     witnesses of docs/C05.md (the model's [patched] flag follows the tree so that the tie holds on both)."""
@@ -779,6 +1185,11 @@ def detect_patches():
             res[name] = 0 if probs else 1
         except Exception:
             res[name] = 0
+    try:
+        _, probs = run_ops(w["retry_token_close"])
+        res["retry_close"] = 0 if probs else 1
+    except Exception:
+        res["retry_close"] = 0
     TREE_PATCHED.update(res)
     return res
 
@@ -1464,6 +1875,21 @@ def run(ctx):
     tm = corr.Suite(ctx, "tlsmsg", "exec_tlsrecv", c05_tlsmsg.encode, c05_tlsmsg.impl, None, None, None,
                     nontrivial=lambda c, out: bool(c.get("data") or c.get("genuine")), opname=None)
     tm.oracle = once(lambda c: c05_tlsmsg.oracle(c, exc_site))
+    cl = corr.Suite(ctx, "close", "exec_close", lambda c: close_observe(c)[0], lambda c: close_observe(c)[1], None, None, None,
+                    nontrivial=lambda c, out: True)
+    cl.oracle = once(oracle_close)
+    cl.run(corr.load_corpus("C05", "close"), "corpus")
+    cl.run(gen_close_cases(rng, ctx.n(400, 6000)))
+    _CACHE.clear()
+    dg = corr.Suite(ctx, "dgram", "exec_dgram", lambda c: dgram_observe(c)[0], lambda c: dgram_observe(c)[1], None, None, None,
+                    nontrivial=lambda c, out: len(out) > 8)
+    dg.oracle = once(oracle_dgram)
+    dg.run(corr.load_corpus("C05", "dgram"), "corpus")
+    dcases = gen_dgram_cases(rng, ctx.n(900, 12000))
+    for i in range(0, len(dcases), 300):
+        dg.run(dcases[i:i + 300])
+        _CACHE.clear()
+    stats["datagrams"] += len(dcases)
     fr.run(corr.load_corpus("C05", "frames"), "corpus")
     hd.run(corr.load_corpus("C05", "header"), "corpus")
     fcases = gen_frame_cases(rng, ctx.n(5000, 60000))
@@ -1508,7 +1934,7 @@ def run(ctx):
     extra = {"volume": {k: (dict(v) if isinstance(v, collections.Counter) else v) for k, v in stats.items()},
              "packets_total": stats["datagrams"] + stats["protected_packets"] + stats["tls_messages"]}
     cov = corr.merge_coverage(
-        [fr, hd, tm],
+        [fr, hd, tm, cl, dg],
         "frames: grammar-generated payloads (every frame type x boundary values x truncation at every byte x repetition x "
         "unknown types) in protected packets to client/server in connected / key-updated / handshake states, state snapshot "
         "taken from the real connection; header: header-grammar datagrams against the decision function; distinct = distinct "
